@@ -550,6 +550,21 @@ def algebra_job(job):
         except Exception as e:  # noqa
             same = f"exception {e!r}"[:200]
         cases_extra = [dict(kind="record_stack_then_to_graph", ok=(same is True), detail=str(same))]
+        # an experiment whose episodes were recorded by SEPARATELY built (identical) systems: converting to graphs needs only the steps and
+        # messages, not equal static metadata (seeded change C14-f converted through the record-level stack, which does)
+        try:
+            _, eps_b, _hb = compiled.record_graphs(cfg, job["seed"] + 17, hists[:1])
+            recs_b = recs + [e["record_raw"] for e in eps_b]
+            st_b = base.ExperimentRecord(episodes=recs_b).to_graph()
+            tabs_b = [_tables_of_graph(r.to_graph()) for r in recs_b]
+            strip_b = lambda t: dict(verts={k: [r for r in v if r["seq"] >= 0] for k, v in t["verts"].items()},  # noqa
+                                     edges={k: [r for r in v if r["out"] >= 0] for k, v in t["edges"].items()})
+            cases.append(dict(id=f"{job['id']}/stack_index/two_systems", op="stack_index", eps=[strip_b(t) for t in tabs_b],
+                              indexed=[_tables_of_graph(st_b[i]) for i in range(len(recs_b))], len=len(st_b)))
+        except compiled.NoRecord:
+            pass
+        except Exception as e:  # noqa
+            cases_extra.append(dict(kind="experiment_of_two_systems_to_graph_raises", ok=False, detail=repr(e)[:300]))
     else:
         g_stacked, nodes = compiled.generated_graphs(cfg, job["seed"], rng.choice([24, 40, 64]), rng.choice([2, 3]))
         n_e = next(iter(g_stacked.vertices.values())).seq.shape[0]
@@ -800,8 +815,10 @@ def solver_e2e_job(job):
         from rex.cem import CEMSolver, cem_step
 
         ns = rng.choice([4, 8, 16, 32])
-        solver = CEMSolver.init(u_min=u_min, u_max=u_max, num_samples=ns, evolution_smoothing=rng.choice([0.0, 0.1, 0.5, 0.9]),
-                                elite_portion=rng.choice([0.26, 0.3, 0.5]))
+        smooth, ep = rng.choice([0.0, 0.1, 0.5, 0.9]), rng.choice([0.26, 0.3, 0.5])
+        if (seed // 2) % 3 == 1:   # a SINGLE elite (int(num_samples * elite_portion) = 1): the spread of one sample is 0, never NaN (seeded change C18-e)
+            ns, ep = ((10, 0.1) if seed % 4 < 2 else (4, 0.26))
+        solver = CEMSolver.init(u_min=u_min, u_max=u_max, num_samples=ns, evolution_smoothing=smooth, elite_portion=ep)
         state = solver.init_state(mean={"p": jnp.asarray(lo + (hi - lo) * rng.random())})
         for k in range(T):
             key, sub = jax.random.split(key)
@@ -948,7 +965,8 @@ def rlw_replay_job(job):
     g_raw, nodes = compiled.generated_graphs(cfg, 0, 2 * (L + 6), 1)
     nodes = gen.build_nodes(cfg, log=False)
     G = Graph(nodes=dict(nodes), supervisor=nodes["agent"], graphs_raw=g_raw, progress_bar=False)
-    LOW, HIGH = -2.0, 2.0
+    # action bounds: mostly NOT centred on zero (seeded change C19-e was invisible for symmetric boxes)
+    LOW, HIGH = [(-1.0, 3.0), (0.0, 1.0), (-4.0, -2.0), (-2.0, 2.0)][job["seed"] % 4]
 
     class TableEnv(rl.Environment):
         tables = None
@@ -1049,14 +1067,14 @@ def rlw_replay_job(job):
                     last = int(onp.asarray(gs.seq["agent"]).reshape(-1)[0]) - 1
                     idx = [i for i, s in enumerate(seqs) if s == last]
                     exp_a = (onp.tanh(a) * (HIGH - LOW) / 2 + (HIGH + LOW) / 2) if (squash and variant.get("wrapper", "squash") == "squash") else min(max(a, LOW), HIGH)
+                    if not idx or abs(hs_[idx[0]] - round(exp_a * 1000)) > 1 or not (LOW * 1000 - 1 <= hs_[idx[0]] <= HIGH * 1000 + 1):
+                        bad = dict(step=k, what="supervisor output is the (squashed/clipped) action", action=a, expected=round(exp_a * 1000),
+                                   got=(int(hs_[idx[0]]) if idx else None))
+                        break
                     hook_h = int(onp.asarray(gs.state["agent"].h).reshape(-1)[0])
                     if abs(hook_h - (round(exp_a * 1000) + 5000)) > 1:
                         bad = dict(step=k, what="the supervisor's state written by update_graph_state_pre_step is what the graph's step was given", action=a,
                                    expected=round(exp_a * 1000) + 5000, got=hook_h)
-                        break
-                    if not idx or abs(hs_[idx[0]] - round(exp_a * 1000)) > 1 or not (LOW * 1000 - 1 <= hs_[idx[0]] <= HIGH * 1000 + 1):
-                        bad = dict(step=k, what="supervisor output is the (squashed/clipped) action", action=a, expected=round(exp_a * 1000),
-                                   got=(int(hs_[idx[0]]) if idx else None))
                         break
             results.append(dict(hist=hist, variant=variant, ok=bad is None, bad=bad))
     # auto-reset into ANOTHER recorded episode (randomize_eps, freshly drawn initial state): the state returned after an episode end must be the
